@@ -44,7 +44,7 @@ let pc_str (s : state) (t : int) (x : task) =
   | PW0 _ -> "wf.enter" | PW1 _ -> "wf.buffering" | PW2 _ -> "wf.before_writer"
   | PW2wait _ | PC2wait _ -> "queued"
   | PW3 _ -> "wf.writer_locked" | PW4 _ -> "wf.buffer_taken" | PE0 _ -> "io_err.enter"
-  | PC1 _ -> "close.flag_set" | PC2 _ -> "close.before_writer" | PO0 -> "open.checked" | PO1 _ -> "open.registered" | PPwait -> "pump.wait"
+  | PC1 _ -> "close.flag_set" | PC2 _ -> "close.before_writer" | PO0 -> "open.checked" | PO0b _ -> "open.rx_registered" | PO1 _ -> "open.registered" | PPwait -> "pump.wait"
 
 let frame_tok (f : frame) =
   let c = int_of_n (byte_of_cmd f.fcmd) in
